@@ -168,6 +168,44 @@ def gen_e1w(rng, cid):
     return '\n'.join(lines)
 
 
+# ----------------------------------------------------------------------------- E1 generator, C03x
+def gen_e1x(rng, cid):
+    """life cycle of the schedule_from operation state: the three activities `start`, completion of the predecessor
+    (any channel) and completion of the scheduler (any channel) on own threads, sharing threads, or all on one
+    thread in any program order (a completion requested before its operation state is started is delivered inline
+    inside that start: predecessor inline in start(), scheduler inline in start(*scheduler_op_state)); with three
+    threads the scheduler may complete on the target thread while the predecessor's thread is still inside
+    start(*scheduler_op_state) (preemption point sf.armed); two thirds with a self-deleting operation state in
+    guarded memory (life=1)"""
+    seed = rng.below(1 << 30)
+    strat = rng.weighted([(0, 5), (1, 3), (2, 2)])
+    life = ' life=1' if rng.below(3) != 0 else ''
+    pch = rng.weighted([('value', 7), ('error', 2), ('stopped', 1)])
+    sch = rng.weighted([('value', 5), ('error', 3), ('stopped', 2)])
+    ops = ['start', f'complete_{pch} 0 {1 + rng.below(9)}', f'sched_{sch} {1 + rng.below(9)}']
+    if rng.below(12) == 0:
+        ops.pop(1 + rng.below(2))          # the predecessor or the scheduler never completes
+    mode = rng.below(4)                    # 0/1: own threads, 2: random sharing, 3: one thread
+    progs = []
+    for op in ops:
+        if mode <= 1 or not progs or (mode == 2 and rng.below(2) == 0):
+            progs.append([op])
+        else:
+            progs[rng.below(len(progs))].append(op)
+    for pr in progs:
+        for j in range(len(pr) - 1, 0, -1):
+            k2 = rng.below(j + 1)
+            pr[j], pr[k2] = pr[k2], pr[j]
+    for j in range(len(progs) - 1, 0, -1):
+        k2 = rng.below(j + 1)
+        progs[j], progs[k2] = progs[k2], progs[j]
+    lines = [f'case {cid} kind=schedule_from seed={seed} strat={strat}{life}']
+    for t, pr in enumerate(progs):
+        lines.append(f'thread {t}: ' + ' ; '.join(pr) + ' ;')
+    lines.append('endcase')
+    return '\n'.join(lines)
+
+
 # ----------------------------------------------------------------------------- E0 static generator (C03s)
 U8 = ['then', 'lv', 'le', 'co', 'un', 'dv', 'rs', 'dos']
 U6 = ['then', 'lv', 'le', 'co', 'rs', 'dos']
@@ -450,7 +488,9 @@ def main():
     # Props/C03s.lean (payload locations: every payload is read while its operation state is alive)
     # Props/C03w.lean (life cycle of the when_all / when_all_vector operation state: one completion by the last
     # child, no access after the last decrement, destroyed exactly once)
-    PROPS = ['C03', 'C03Life', 'C03s', 'C03w']
+    # Props/C03x.lean (life cycle of the schedule_from operation state: one completion, the denoted one, the forwarding
+    # call is the last access, reset precedes it, every stored object destroyed exactly once; swapped-order witness)
+    PROPS = ['C03', 'C03Life', 'C03s', 'C03w', 'C03x']
     ok_build, build_log = lean_build(PROPS)
     audit = {'obligations': 0, 'discharged': 0, 'problems': ['lake build failed'], 'theorems': [],
              'checker_cmd': f'cd {LEAN} && lake build'}
@@ -544,6 +584,9 @@ def main():
             # C03w (added after everything else: the cases above are unchanged): life cycle of when_all / when_all_vector
             for i in range(3000 if tr == 'thorough' else 250):
                 e1_cases.append(gen_e1w(rng, f'w{base_seed}n{i}'))
+            # C03x (added after everything else: the cases above are unchanged): life cycle of schedule_from
+            for i in range(3000 if tr == 'thorough' else 250):
+                e1_cases.append(gen_e1x(rng, f'x{base_seed}s{i}'))
 
     def run_static(e0s, tag):
         """statically typed E0 cases: static=1 on the pure binary (a term it does not recognise is re-run on the REF
@@ -597,7 +640,7 @@ def main():
     if (not proof_ok or kinds['tie'] > 0) and kinds['monitor'] == 0 and not replay:
         xe0 = [gen_e0(rng, f'x{base_seed}n{i}', pool=(i % 4 == 3)) for i in range(6000)]
         xe0 += [gen_e0_static(rng, f'z{base_seed}n{i}', pool=(i % 8 == 7)) for i in range(3000)]
-        xe1 = ([gen_e1(rng, f'y{base_seed}n{i}') for i in range(3000)] + [gen_e1w(rng, f'yw{base_seed}n{i}') for i in range(1500)]) if 'e1_split' in builds else []
+        xe1 = ([gen_e1(rng, f'y{base_seed}n{i}') for i in range(3000)] + [gen_e1w(rng, f'yw{base_seed}n{i}') for i in range(1500)] + [gen_e1x(rng, f'yx{base_seed}n{i}') for i in range(1500)]) if 'e1_split' in builds else []
         xres = run_all(xe0, xe1, 'x')
         extra_run = len(xres)
         for x in xres:
